@@ -35,7 +35,7 @@ EXPECT_REACH = ['records_searched', 'secrets_searched', 'flavour.plain', 'flavou
 
 def generate(seed, tier):
     r = random.Random(f'C20gen:{seed}')
-    flavour = r.choice(['plain', 'plain', 'authfail', 'hostile', 'kerr', 'kodd', 'debug'])
+    flavour = r.choice(['plain', 'plain', 'authfail', 'hostile', 'kerr', 'kodd', 'debug', 'mismatch'])
     o = {'conf': {'profile': 'fast', 'entries': 2}, 'both_initiate': r.random() < 0.4, 'packets': r.randint(1, 4),
          'duration': r.choice([20, 40]), 'forced': 3, 'faults': [k for k in ('drop', 'dup', 'corrupt') if r.random() < 0.3]}
     sc = workload.pair_scenario(seed, PROP, o)
@@ -64,6 +64,34 @@ def generate(seed, tier):
             sc['ops'].append({'t': round(r.uniform(0.6, T), 3), 'op': 'call', 'name': 'kodd', 'node': r.choice('AB'),
                               'kind': r.choice(['unknown_type', 'truncated', 'acquire_unknown_peer', 'acquire_unknown_index', 'acquire_unknown_index',
                                                 'expire_unknown_spi', 'zeros', 'done']), 'seed': r.randrange(2 ** 31)})
+    elif flavour == 'mismatch':
+        # the two administrators did not agree on everything: negotiations that end in TS_UNACCEPTABLE, NO_PROPOSAL_CHOSEN or a mode refusal
+        # (failure paths that log the refusal), on IKE_AUTH and on CREATE_CHILD_SA
+        ca, cb = sc['nodes']['A']['conf']['to-b'], sc['nodes']['B']['conf']['to-a']
+        side = cb if r.random() < 0.7 else ca          # whose entries drift away (the other side's traffic was generated for its own entries)
+        other = ca if side is cb else cb
+        for i, pe in enumerate(side['protect']):
+            if r.random() < 0.3 and i > 0:
+                continue
+            how = r.choice(['selectors', 'selectors', 'mode', 'child_suite', 'proto'])
+            po = other['protect'][i] if i < len(other['protect']) else {}
+            if how == 'selectors':
+                if 'my_subnet' in pe:
+                    pe['my_subnet'] = '192.0.2.0/24' if ':' not in pe['my_subnet'] else '2001:db8:77::/48'
+                elif po.get('ip_proto', 'any') != 'any':
+                    pe['ip_proto'] = 'udp' if po['ip_proto'] == 'tcp' else 'tcp'
+                else:
+                    how = 'mode'
+            if how == 'mode':
+                pe['mode'] = 'tunnel' if pe.get('mode', 'tunnel') == 'transport' else 'transport'
+            elif how == 'child_suite':
+                pe['integ'] = ['sha512'] if po.get('integ', ['sha1']) != ['sha512'] else ['sha1']
+            elif how == 'proto':
+                pe['ipsec_proto'] = 'ah' if pe.get('ipsec_proto', 'esp') == 'esp' else 'esp'
+                if pe['ipsec_proto'] == 'esp':
+                    pe.setdefault('encr', ['aes256'])
+                else:
+                    pe.pop('encr', None)
     elif flavour == 'debug':
         sc['debug_log'] = True
     sc['ops'].sort(key=lambda x: x['t'])
